@@ -13,7 +13,7 @@ namespace Tyme
 open Packed Gen
 
 /-- TABLE FACT (complete enumeration, 10,000 year records / 123,684 lunations). -/
-theorem years_tile_fact : adjRec 512 yearPair Gen.monthsChunks = true := by
+theorem years_tile_fact : adjRec 1024 yearPair Gen.monthsChunks = true := by
   rw [adjRec_def]
   unfold Gen.monthsChunks
   simp only [adjChunks_append, months_yearPair_part0, months_yearPair_part1, months_yearPair_part2, months_yearPair_part3,
@@ -21,10 +21,19 @@ theorem years_tile_fact : adjRec 512 yearPair Gen.monthsChunks = true := by
   rfl
 
 /-- TABLE FACT: every year record has leap month ≤ 12 and 12 or 13 months (no exceptions). -/
-theorem years_leap_fact : allRec 512 yearLeapOK Gen.monthsChunks = true := by
+theorem years_leap_fact : allRec 1024 yearLeapOK Gen.monthsChunks = true := by
   unfold allRec Gen.monthsChunks
   simp only [allChunks_append, months_yearLeapOK_part0, months_yearLeapOK_part1, months_yearLeapOK_part2, months_yearLeapOK_part3,
     months_len_part0, months_len_part1, months_len_part2, records_append, List.length_append, Nat.zero_add, Nat.reduceAdd, Bool.and_self]
+
+/-- TABLE FACT (C04): in every solstice year 27..9999 except 238, 239, 240 the table's month numbers and leap
+month are exactly what the no-major-term rule prescribes from the library's own new-moon and zhongqi days. -/
+theorem years_sui_fact : adjRec 1024 suiPair Gen.monthsChunks = true := by
+  rw [adjRec_def]
+  unfold Gen.monthsChunks
+  simp only [adjChunks_append, months_suiPair_part0, months_suiPair_part1, months_suiPair_part2, months_suiPair_part3,
+    months_len_part0, months_len_part1, months_len_part2, records_append, List.length_append, Nat.zero_add, Nat.reduceAdd]
+  rfl
 
 theorem yearRecs_length : yearRecs.length = 10000 := by
   unfold yearRecs Gen.monthsChunks
